@@ -267,6 +267,14 @@ def run(ctx):
     # the members it looks at (2.0 and 2.5 are both floats, and only one is an integer) (C11-r6m2)
     from .c07 import rule_validator_state
     rule_validator_state(ctx, "R11.17")
+    from . import scope as _scope11
+    _scope11.rule_first_error_path_lazy(ctx, "R11.18")
+    # R11.19/R11.20: the metaschemas say what they say through dependencies, type unions with schemas, uniqueItems and enum: check_schema's verdict is the
+    # metaschema's only if the applicators combine sub-verdicts as the draft says and equality is JSON equality (C11-r7m1, -m2)
+    from .applic import rule_applicators as _ra
+    _ra(ctx, "R11.19", "verdict")
+    from .c08 import rule_relation_table as _rt, eq_functions as _ef
+    _rt(ctx, _ef(ctx.prog)[0], "R11.20")
     try:
         from .c03 import rule_metaschema_shapes
     except ImportError:
